@@ -79,6 +79,12 @@ def main():
         for obj, rc, o in ex.map(compile_one, objs):
             if rc: fails.append((obj, o))
     if fails:
+        # a compiler process killed for lack of memory is not a verdict: retry the failed objects two at a time
+        retry = [o for o, _ in fails]; fails = []
+        with cf.ThreadPoolExecutor(2) as ex:
+            for obj, rc, o in ex.map(compile_one, retry):
+                if rc: fails.append((obj, o))
+    if fails:
         print("DOES NOT COMPILE:", fails[0][0], fails[0][1][-800:]); return 4
     rc, o = sh("ninja -C %s -t targets all" % B)
     exes = [l.split(":")[0] for l in o.splitlines() if ": CXX_EXECUTABLE_LINKER" in l]
